@@ -1,7 +1,8 @@
 use super::actions::{AppAction, EngineOutput, NetAction};
 use super::command::{ZmtpCommand, ZmtpReady};
 use super::greeting::{
-  encode_signature, encode_v3_tail, socket_type_code, socket_type_name_from_code, ZmtpGreeting,
+  encode_signature, encode_v3_tail, socket_type_code, socket_type_name_from_code,
+  socket_types_compatible, ZmtpGreeting,
   GREETING_LENGTH, MECHANISM_LENGTH, SIGNATURE_LENGTH, V2_REVISION, V3_REVISION,
 };
 use super::ZmtpCodec;
@@ -597,6 +598,18 @@ impl ZmtpEngine {
         .get("Identity")
         .map(|v| Blob::from(v.clone()));
 
+      // Same verdict as the ZMTP/2.0 greeting check and the inproc handshake.
+      if let Some(peer) = peer_socket_type.as_deref() {
+        if !socket_types_compatible(&self.config.socket_type_name, peer) {
+          let own = &self.config.socket_type_name;
+          self.fail(
+            out,
+            ZmqError::ProtocolViolation(format!("Incompatible sockets: local {} <-> peer {}", own, peer)),
+          );
+          return;
+        }
+      }
+
       if self.is_server {
         // Server received client READY → send server READY then complete.
         self.emit_local_ready(out);
@@ -790,35 +803,11 @@ impl ZmtpEngine {
   /// Validates that our local socket type is compatible with the peer's ZMTP/2.0
   /// socket-type byte (e.g. PUSH↔PULL, REQ↔REP/ROUTER).
   fn validate_v2_compatibility(&self, peer_byte: u8) -> Result<(), ZmqError> {
-    use super::greeting::*;
     let peer_name = socket_type_name_from_code(peer_byte).ok_or_else(|| {
       ZmqError::ProtocolViolation(format!("v2 peer used unknown socket-type byte {:#04x}", peer_byte))
     })?;
     let own = self.config.socket_type_name.as_str();
-    let ok = matches!(
-      (own, peer_byte),
-      ("PULL", V2_SOCKET_TYPE_PUSH)
-        | ("PUSH", V2_SOCKET_TYPE_PULL)
-        | ("PUB", V2_SOCKET_TYPE_SUB)
-        | ("SUB", V2_SOCKET_TYPE_PUB)
-        | ("PUB", V2_SOCKET_TYPE_XSUB)
-        | ("XSUB", V2_SOCKET_TYPE_PUB)
-        | ("XPUB", V2_SOCKET_TYPE_SUB)
-        | ("SUB", V2_SOCKET_TYPE_XPUB)
-        | ("XPUB", V2_SOCKET_TYPE_XSUB)
-        | ("XSUB", V2_SOCKET_TYPE_XPUB)
-        | ("REQ", V2_SOCKET_TYPE_REP)
-        | ("REP", V2_SOCKET_TYPE_REQ)
-        | ("REQ", V2_SOCKET_TYPE_ROUTER)
-        | ("ROUTER", V2_SOCKET_TYPE_REQ)
-        | ("REP", V2_SOCKET_TYPE_DEALER)
-        | ("DEALER", V2_SOCKET_TYPE_REP)
-        | ("DEALER", V2_SOCKET_TYPE_ROUTER)
-        | ("ROUTER", V2_SOCKET_TYPE_DEALER)
-        | ("DEALER", V2_SOCKET_TYPE_DEALER)
-        | ("ROUTER", V2_SOCKET_TYPE_ROUTER)
-        | ("PAIR", V2_SOCKET_TYPE_PAIR)
-    );
+    let ok = socket_types_compatible(own, peer_name);
     if !ok {
       return Err(ZmqError::ProtocolViolation(format!(
         "Incompatible ZMTP/2.0 sockets: local {} <-> peer {}",
